@@ -7,7 +7,6 @@ import (
 	"io"
 	"math/rand"
 	"net"
-	"strconv"
 	"strings"
 	"sync"
 	"sync/atomic"
@@ -29,7 +28,8 @@ import (
 //	                           D<c>:<ok|keep|err> done, L<c>:<0|1> release refused/accepted, M<c> idle timer, C<g> closeIdle, X<c> exit),
 //	                           replayed deterministically through Model/TransportConnC17.lean by the oracle
 //
-// Families (DialTimeout 300 ms, IdleTimeout 40 ms so that every deadline of the scenario elapses before the census):
+// Families (DialTimeout 300 ms, IdleTimeout 40 ms so that every deadline of the scenario elapses before the census;
+// 7 and 8: IdleTimeout 30 s, so that only CloseIdleConnections can have closed the connections counted by the census):
 //
 //	0 silent broker (ApiVersions never answered), cancel      1 unreachable (dial blocks until its context ends), cancel
 //	2, 3 the same with a context deadline instead of cancel
@@ -39,6 +39,9 @@ import (
 //	6 ready pool, Fetch answer held: cancel → answer released → connection idle → idle timer → CloseIdleConnections
 //	7 ready pool, Fetch answered normally → CloseIdleConnections while idle
 //	8 ready pool, two round trips, one held; CloseIdleConnections while the other connection is idle; release
+//	9 the broker connection's dial is slow and ignores its context: the caller's context is cancelled while the
+//	  connect is under way, the connect then succeeds — the connection nobody waits for any more must be released to
+//	  the pool or closed (and be gone after the idle timeout / CloseIdleConnections)
 func transportScenario(kind int, r *rand.Rand) (lines [][2]string) {
 	base := libGoroutines()
 	rec := &recorder{}
@@ -53,6 +56,8 @@ func transportScenario(kind int, r *rand.Rand) (lines [][2]string) {
 		})
 	}
 	held := make(chan struct{}, 16)
+	slowDial := make(chan struct{}, 16)
+	dialDelay := time.Duration(10+r.Intn(20)) * time.Millisecond
 	brk := &Broker{FetchMax: 2, Topic: "t", OnFetch: func(q FetchReq) FetchResp {
 		rec.add("fq")
 		switch kind {
@@ -68,10 +73,14 @@ func transportScenario(kind int, r *rand.Rand) (lines [][2]string) {
 		<-release
 		return FetchResp{Hwm: 0, Cut: -1}
 	}}
+	idle := 40 * time.Millisecond
+	if kind == 7 || kind == 8 {
+		idle = 30 * time.Second // the idle timer cannot do CloseIdleConnections' work
+	}
 	kafka.VerifStart()
 	tr := &kafka.Transport{
 		DialTimeout: 300 * time.Millisecond,
-		IdleTimeout: 40 * time.Millisecond,
+		IdleTimeout: idle,
 		MetadataTTL: 10 * time.Second,
 		Dial: func(ctx context.Context, network, addr string) (net.Conn, error) {
 			if kind == 1 || kind == 3 {
@@ -79,6 +88,10 @@ func transportScenario(kind int, r *rand.Rand) (lines [][2]string) {
 				return nil, ctx.Err()
 			}
 			id := int(atomic.AddInt32(&nconn, 1))
+			if kind == 9 && id >= 2 {
+				slowDial <- struct{}{}
+				time.Sleep(dialDelay) // deaf to ctx: the connect completes after the cancellation
+			}
 			atomic.AddInt32(&open, 1)
 			rec.add("bo/%d", id)
 			var c net.Conn
@@ -152,6 +165,15 @@ func transportScenario(kind int, r *rand.Rand) (lines [][2]string) {
 			}
 		}
 	}
+	// mustReturn: call i's context has been cancelled; it has to return without any help from the broker
+	mustReturn := func(i int) {
+		select {
+		case <-done[i]:
+		case <-time.After(watchdog()):
+			noteStuck()
+			rec.add("to/%d", i+1)
+		}
+	}
 	closeIdle := func() {
 		rec.add("ci")
 		tr.CloseIdleConnections()
@@ -166,7 +188,7 @@ func transportScenario(kind int, r *rand.Rand) (lines [][2]string) {
 		waitHeld(ncalls)
 		cancelAll()
 		for i := range done {
-			<-waitOr(done[i])
+			mustReturn(i)
 		}
 		closeIdle()
 		time.Sleep(time.Duration(r.Intn(5)) * time.Millisecond)
@@ -175,17 +197,30 @@ func transportScenario(kind int, r *rand.Rand) (lines [][2]string) {
 		waitHeld(ncalls)
 		cancelAll()
 		for i := range done {
-			<-waitOr(done[i])
+			mustReturn(i)
 		}
 		doRelease()
 		time.Sleep(time.Duration(r.Intn(80)) * time.Millisecond) // sometimes shorter, sometimes longer than IdleTimeout
+	case 9:
+		for i := 0; i < ncalls; i++ {
+			select {
+			case <-slowDial:
+			case <-time.After(watchdog()):
+			}
+		}
+		cancelAll()
+		for i := range done {
+			mustReturn(i)
+		}
+		doRelease() // should a request be sent after all, it is answered
+		time.Sleep(time.Duration(40+r.Intn(40)) * time.Millisecond)
 	case 8:
 		waitHeld(1)
 		<-waitOr(done[1])
 		closeIdle() // refused: the callers still hold the pool? — CloseIdleConnections drops its own reference only
 		rec.add("cx/1")
 		cancels[0]()
-		<-waitOr(done[0])
+		mustReturn(0)
 		doRelease()
 	}
 	pend := "-"
@@ -206,12 +241,15 @@ func transportScenario(kind int, r *rand.Rand) (lines [][2]string) {
 	doRelease()
 	closeIdle()
 	// census after the scenario's deadlines (DialTimeout 300 ms, IdleTimeout 40 ms, context deadlines ≤ 50 ms) elapsed
-	n := settle(base, 1500*time.Millisecond)
+	n := settle(base, censusBound())
 	rec.add("lk/%d", n)
 	oc := int(atomic.LoadInt32(&open))
-	for i := 0; i < 750 && oc != 0; i++ {
+	for i := 0; i < censusSteps() && oc != 0; i++ {
 		time.Sleep(2 * time.Millisecond)
 		oc = int(atomic.LoadInt32(&open))
+	}
+	if oc != 0 {
+		noteStuck()
 	}
 	rec.add("oc/%d", oc)
 	evs := kafka.VerifStop()
@@ -226,10 +264,11 @@ func transportScenario(kind int, r *rand.Rand) (lines [][2]string) {
 		}
 		return groupOf[a]
 	}
-	cid := func(a string) int {
-		v, _ := strconv.Atoi(strings.TrimPrefix(a, "#"))
-		return v
-	}
+	// connections are numbered locally, a new number at every T.New: the recorder's ids follow addresses, and the address
+	// of a connection that has exited may be handed to a later one
+	connOf := map[string]int{}
+	nconns, nexited := 0, 0
+	cid := func(a string) int { return connOf[a] }
 	var es []string
 	exited := map[string]bool{}
 	for _, e := range evs {
@@ -242,6 +281,9 @@ func transportScenario(kind int, r *rand.Rand) (lines [][2]string) {
 		switch e.Kind {
 		case "T.New":
 			known[e.Args[0]] = true
+			nconns++
+			connOf[e.Args[0]] = nconns
+			delete(exited, e.Args[0])
 			es = append(es, fmt.Sprintf("N%d:%d", cid(e.Args[0]), gid(e.Args[1])))
 		case "T.Grab":
 			es = append(es, fmt.Sprintf("G%d", cid(e.Args[0])))
@@ -262,6 +304,9 @@ func transportScenario(kind int, r *rand.Rand) (lines [][2]string) {
 			}
 			es = append(es, fmt.Sprintf("L%d:%d", cid(e.Args[0]), a))
 		case "T.Exit":
+			if !exited[e.Args[0]] {
+				nexited++
+			}
 			exited[e.Args[0]] = true
 			es = append(es, fmt.Sprintf("X%d", cid(e.Args[0])))
 		case "T.Remove":
@@ -270,7 +315,7 @@ func transportScenario(kind int, r *rand.Rand) (lines [][2]string) {
 			es = append(es, fmt.Sprintf("C%d", gid(e.Args[0])))
 		}
 	}
-	live := len(known) - len(exited)
+	live := nconns - nexited
 	tr2 := "-"
 	if len(es) > 0 {
 		tr2 = strings.Join(es, ";")
@@ -286,7 +331,7 @@ func transportPart(seed int64) {
 	}
 	n := 0
 	for rep := 0; rep < reps; rep++ {
-		for kind := 0; kind < 9; kind++ {
+		for kind := 0; kind < 10; kind++ {
 			n++
 			if tooManyStuck() {
 				return
